@@ -94,6 +94,10 @@ _public_ int m_mod_set_batch_size(m_mod_t *mod, size_t len) {
     M_MOD_ASSERT(mod);
     M_MOD_CONSUME_TOKEN(mod);
     
+    if (len == 0 && mod->batch.timer.ns != 0) {
+        /* Batching by size is disabled, but batching by time is still on: see m_mod_set_batch_timeout() */
+        len = SIZE_MAX;
+    }
     mod->batch.len = len;
     return 0;
 }
@@ -116,6 +120,10 @@ _public_ int m_mod_set_batch_timeout(m_mod_t *mod, uint64_t timeout_ns) {
             mod->batch.len = SIZE_MAX;
         }
         return m_mod_src_register_tmr(mod, &mod->batch.timer, M_SRC_INTERNAL | M_SRC_PRIO_HIGH, &mod->batch);
+    }
+    if (mod->batch.len == SIZE_MAX) {
+        // Only timed batching was effective: disable batching altogether
+        mod->batch.len = 0;
     }
     return 0;
 }
